@@ -2,6 +2,8 @@
   C03 — Component surrogates are exact on their sparse polynomial space.
 -/
 import AmiscProofs.Combination
+import AmiscProofs.SparseExact
+import AmiscProps.C01
 
 namespace Amisc.C03
 open Amisc.Comb Finset
@@ -33,5 +35,102 @@ example : DC (Fintype.piFinset (fun _ : Fin 2 => Finset.range 3)) ∧
     rw [Finset.mem_range] at h1 ⊢
     omega
   · rw [Fintype.mem_piFinset]; intro k; simp
+
+
+/-! ## The executable list model: `Component.predict` is exact on the sparse polynomial space -/
+
+open Amisc.SE Amisc.Tensor Polynomial
+
+/-- what `Lagrange.refine` leaves behind for one input dimension (distinct nodes, weights = nodal weights × common factor)
+    — by `C04.refine_consistent_under_moving_bounds` every refinement history ends in `wtsInit C grid` -/
+theorem refine_state_is_good (C : Q) (hC : C ≠ 0) (grid : List Q) (hnd : grid.Nodup) (hpos : 0 < grid.length) :
+    GoodDim grid (wtsInit C grid) := goodDim_wtsInit C hC grid hnd hpos
+
+/-- **one tensor term reproduces products of low-degree polynomials** (`Lagrange.predict`, any point `x`) -/
+theorem tensor_term_exact (st : LState) (x : List Q) (p : ℕ → ℚ[X]) (hd : st.grids.length = x.length)
+    (hgood : ∀ k, k < x.length → GoodDim (st.grids.getD k []) (st.wts.getD k []))
+    (hdeg : ∀ k, k < x.length → (p k).degree < (st.grids.getD k []).length) :
+    predictT 0 st (prodRows (fun k a => eval (LL.nodeFn (st.grids.getD k []) a) (p k)) (st.grids.map List.length)) x =
+      [((List.range x.length).map fun k => eval (x.getD k 0) (p k)).prod] :=
+  predictT_exact st x p hd hgood hdeg
+
+/-- **C03 on the list model**, any duplicate-free downward-closed set with inclusion–exclusion weights: see
+    `Amisc.SE.misc_exact`. -/
+theorem surrogate_exact_on_sparse_space {na d : ℕ} (S : List Idx) (hnd : S.Nodup) (hlen : ∀ s ∈ S, s.length = na + d)
+    (hdown : ∀ s ∈ S, ∀ j, Idx.le j s = true → j ∈ S)
+    (nodes : ℕ → List Q) (gs : ℕ → ℕ) (hgs : Monotone gs) (hnodes : ∀ k, k < d → (nodes k).Nodup)
+    (st : Idx → LState) (hN : Nested na d nodes gs st S) (f : PolyModel)
+    (hf : ∀ t ∈ f, ∃ l ∈ S, (∀ k, k < d → (t.2 k).degree < gs (Idx.nth l (na + k))) ∧
+      (∀ k, k < d → gs (Idx.nth l (na + k)) ≤ (nodes k).length))
+    (x : List Q) (hx : x.length = d) :
+    (miscSum (S.map fun i => (IE S i, predictT 0 (st i) (rowsOfPoly (st i) f) x))).getD 0 0 = f.evalAt d x :=
+  misc_exact S hnd hlen hdown nodes gs hgs hnodes st hN f hf x hx
+
+/-- **Training mode, after ANY request history**: the weights the component actually stores (`misc_coeff_train`) over the
+    active set it actually reached reproduce every polynomial of the sparse space of that set. -/
+theorem trained_component_exact_train {na d : ℕ} (box : Idx) (rs : List Idx) (h : C01.WT box rs)
+    (hbox : box.length = na + d)
+    (nodes : ℕ → List Q) (gs : ℕ → ℕ) (hgs : Monotone gs) (hnodes : ∀ k, k < d → (nodes k).Nodup)
+    (st : Idx → LState) (hN : Nested na d nodes gs st (run box rs).active) (f : PolyModel)
+    (hf : ∀ t ∈ f, ∃ l ∈ (run box rs).active, (∀ k, k < d → (t.2 k).degree < gs (Idx.nth l (na + k))) ∧
+      (∀ k, k < d → gs (Idx.nth l (na + k)) ≤ (nodes k).length))
+    (x : List Q) (hx : x.length = d) :
+    (miscSum ((run box rs).active.map fun i =>
+      (((run box rs).ctrain.get i).getD 0, predictT 0 (st i) (rowsOfPoly (st i) f) x))).getD 0 0 = f.evalAt d x := by
+  have inv := inv_run box rs h
+  rw [← misc_exact (run box rs).active inv.nodupA (fun s hs => by rw [inv.lenA s hs, hbox]) inv.down nodes gs hgs hnodes
+    st hN f hf x hx]
+  congr 2
+  apply List.map_congr_left
+  intro i hi
+  rw [C01.ctrain_eq_IE box rs h i, if_pos hi]; rfl
+
+/-- **Evaluation mode**: the same with `misc_coeff_test` over active ∪ candidate. -/
+theorem trained_component_exact_test {na d : ℕ} (box : Idx) (rs : List Idx) (h : C01.WT box rs)
+    (hbox : box.length = na + d)
+    (nodes : ℕ → List Q) (gs : ℕ → ℕ) (hgs : Monotone gs) (hnodes : ∀ k, k < d → (nodes k).Nodup)
+    (st : Idx → LState) (hN : Nested na d nodes gs st ((run box rs).active ++ (run box rs).cand)) (f : PolyModel)
+    (hf : ∀ t ∈ f, ∃ l ∈ (run box rs).active ++ (run box rs).cand,
+      (∀ k, k < d → (t.2 k).degree < gs (Idx.nth l (na + k))) ∧ (∀ k, k < d → gs (Idx.nth l (na + k)) ≤ (nodes k).length))
+    (x : List Q) (hx : x.length = d) :
+    (miscSum (((run box rs).active ++ (run box rs).cand).map fun i =>
+      (((run box rs).ctest.get i).getD 0, predictT 0 (st i) (rowsOfPoly (st i) f) x))).getD 0 0 = f.evalAt d x := by
+  have inv := inv_run box rs h
+  have hlen : ∀ s ∈ (run box rs).active ++ (run box rs).cand, s.length = na + d := by
+    intro s hs
+    rcases List.mem_append.mp hs with h1 | h1
+    · rw [inv.lenA s h1, hbox]
+    · rw [inv.lenC s h1, hbox]
+  rw [← misc_exact _ inv.nodupAC hlen inv.downAC nodes gs hgs hnodes st hN f hf x hx]
+  congr 2
+  apply List.map_congr_left
+  intro i hi
+  rw [C01.ctest_eq_IE box rs h i, if_pos hi]; rfl
+
+/-! non-vacuity of the hypotheses: one input, the set {(0),(1)}, Leja-like nodes 1/2, 0, 1 with 1 and 3 nodes per level,
+    states as `Lagrange.refine` builds them, the model `f(x) = 3 x² - x` (degree 2 < 3 = grid size of level 1) -/
+section NonVacuous
+def exNodes : ℕ → List Q := fun _ => [1/2, 0, 1]
+def exGs : ℕ → ℕ := fun n => 2 * n + 1
+def exSt : Idx → LState := fun i =>
+  { grids := [(exNodes 0).take (exGs (Idx.nth i 0))], wts := [wtsInit (1/4) ((exNodes 0).take (exGs (Idx.nth i 0)))] }
+
+example : Nested 0 1 exNodes exGs exSt [[0], [1]] := by
+  refine ⟨?_, ?_, ?_⟩
+  · intro i _; rfl
+  · intro i _ k hk
+    have : k = 0 := by omega
+    subst this; simp [exSt]
+  · intro i hi k hk
+    have hk0 : k = 0 := by omega
+    subst hk0
+    simp only [List.mem_cons, List.not_mem_nil, or_false] at hi
+    rcases hi with rfl | rfl
+    · exact goodDim_wtsInit (1/4) (by norm_num) _ (by simp [exSt, exNodes, exGs, Idx.nth]) (by simp [exSt, exNodes, exGs, Idx.nth])
+    · exact goodDim_wtsInit (1/4) (by norm_num) _
+        (by simp [exSt, exNodes, exGs, Idx.nth]) (by simp [exSt, exNodes, exGs, Idx.nth])
+
+example : Monotone exGs := fun a b h => by unfold exGs; omega
+end NonVacuous
 
 end Amisc.C03
